@@ -404,6 +404,14 @@ func (s *session) apply(step tf.M) bool {
 		}
 	}
 	defer func() { s.lastCan = fmt.Sprint(s.project()["canSign"]) }()
+	// bounds of the trace specification (MaxG = 12, MaxSig = 40): steps that would exceed them are skipped, so
+	// the bound can never be what rejects a trace
+	if (e == "Propose" || e == "Install") && tk.GetGroupCount(r.Ctx) >= 10 {
+		return false
+	}
+	if e == "Request" && tk.GetSigningCount(r.Ctx) >= 34 {
+		return false
+	}
 	switch e {
 	case "Propose":
 		ms := tf.Strs(step, "ms")
@@ -595,6 +603,9 @@ func RandomScript(rng *rand.Rand, mode string) tf.Script {
 	c := tf.M{"fee": []int{0, 1, 2, 3}[rng.Intn(4)], "startWithGroup": rng.Intn(5) != 0,
 		"g1": menu[rng.Intn(4)], "g1thr": 1 + rng.Intn(2),
 		"bal": tf.M{"p1": rng.Intn(9), "p2": 5 + rng.Intn(20)}}
+	if mode != "fees" {
+		c["bal"] = tf.M{"p1": 1000, "p2": 1000}
+	}
 	if mode == "fees" {
 		c["startWithGroup"] = rng.Intn(12) != 0
 		if c["fee"].(int) == 0 && rng.Intn(2) == 0 {
@@ -637,8 +648,15 @@ func RandomScript(rng *rand.Rand, mode string) tf.Script {
 		case x < 40:
 			steps = append(steps, tf.M{"e": "SetCanSign", "g": 1 + rng.Intn(3), "b": rng.Intn(2) == 0})
 		case x < 60:
-			p := []string{"p1", "p1", "p2", "p2", "authority"}[rng.Intn(5)]
-			steps = append(steps, tf.M{"e": "Request", "p": p, "limit": rng.Intn(7)})
+			if mode == "fees" {
+				p := []string{"p1", "p1", "p2", "p2", "authority"}[rng.Intn(5)]
+				steps = append(steps, tf.M{"e": "Request", "p": p, "limit": rng.Intn(7)})
+			} else {
+				// C18 scripts are insensitive to the fee rule (that is C13's business): the authority (free) or a
+				// rich payer with a generous limit; limit 0 is refused by message validation
+				p := []string{"p2", "authority"}[rng.Intn(2)]
+				steps = append(steps, tf.M{"e": "Request", "p": p, "limit": []int{0, 100, 100, 100}[rng.Intn(4)]})
+			}
 		case x < 75:
 			steps = append(steps, tf.M{"e": "SignAll", "k": 1 + rng.Intn(3)})
 		default:
